@@ -10,9 +10,12 @@ import (
 	"go/constant"
 	"go/token"
 	"go/types"
+	"sort"
 	"strconv"
 	"strings"
 )
+
+func sortStrings(xs []string) { sort.Strings(xs) }
 
 type specError struct{ msg string }
 
@@ -34,6 +37,7 @@ type SpecEnv struct {
 	ranges []*MapIter      // map iterations of the function, in order of execution
 	rets  map[string][]Val // results of the latest contract call per callee (short name)
 	retNames map[string]map[string]int
+	called   map[string]*Term
 	depth int
 	inAssume bool
 }
@@ -645,12 +649,12 @@ func (e *SpecEnv) evalBinary(n *ast.BinaryExpr) Val {
 		if signed {
 			return Val{t: b.BVOp("bvsdiv", x.t, y.t), typ: typ}
 		}
-		return Val{t: b.BVOp("bvudiv", x.t, y.t), typ: typ}
+		return Val{t: e.cx.udivrem(false, x.t, y.t), typ: typ}
 	case token.REM:
 		if signed {
 			return Val{t: b.BVOp("bvsrem", x.t, y.t), typ: typ}
 		}
-		return Val{t: b.BVOp("bvurem", x.t, y.t), typ: typ}
+		return Val{t: e.cx.udivrem(true, x.t, y.t), typ: typ}
 	case token.AND:
 		return Val{t: b.BVOp("bvand", x.t, y.t), typ: typ}
 	case token.OR:
@@ -826,6 +830,20 @@ func (e *SpecEnv) evalCall(n *ast.CallExpr) Val {
 			specFail("ret: unknown result of %s", cid.Name)
 		}
 		return rs[idx]
+	case "called":
+		// called(callee): the execution has passed through a call of callee
+		argn(1)
+		cid, ok1 := n.Args[0].(*ast.Ident)
+		if !ok1 {
+			specFail("called(callee)")
+		}
+		if e.called == nil {
+			return Val{t: b.False(), typ: boolT}
+		}
+		if t, ok := e.called[cid.Name]; ok {
+			return Val{t: t, typ: boolT}
+		}
+		return Val{t: b.False(), typ: boolT}
 	case "pre":
 		argn(1)
 		if e.pre == nil {
@@ -1007,6 +1025,50 @@ func (e *SpecEnv) evalCall(n *ast.CallExpr) Val {
 		hn := w.heapName(SBV(bits))
 		ut := map[int]types.Type{8: types.Typ[types.Uint8], 16: types.Typ[types.Uint16], 32: types.Typ[types.Uint32], 64: types.Typ[types.Uint64]}[bits]
 		return Val{t: b.Select(e.cur.heap(e.cx, hn), loc), typ: ut, loc: loc}
+	case "keptAll":
+		// keptAll(T): no field of any object of struct type T differs from the old state
+		argn(1)
+		if e.old == nil {
+			specFail("keptAll() needs an old state")
+		}
+		t := e.lookupType(n.Args[0])
+		if t == nil || !isStructType(t) {
+			specFail("keptAll(T): struct type expected in %s", exprString(n))
+		}
+		w.forceSorts(t)
+		sorts := map[Sort]bool{}
+		e.cx.leafSorts(t, sorts)
+		var names []string
+		for srt := range sorts {
+			names = append(names, string(srt))
+		}
+		sortStrings(names)
+		var cs []*Term
+		for _, sn := range names {
+			srt := Sort(sn)
+			hn := w.heapName(srt)
+			hc, ho := e.cur.heap(e.cx, hn), e.old.heap(e.cx, hn)
+			if def(hc) == def(ho) {
+				continue
+			}
+			ln := fmt.Sprintf("l?%d", e.cx.nextBound())
+			l := b.BVar(ln, SLoc)
+			in := e.cx.inside(l, t, srt, func(x *Term) *Term { return b.True() })
+			cs = append(cs, b.Forall([]BoundVar{{ln, SLoc}}, b.Implies(in, b.Eq(b.Select(hc, l), b.Select(ho, l))), b.Select(hc, l)))
+		}
+		return Val{t: b.And(cs...), typ: boolT}
+	case "viewStruct":
+		// viewStruct(buf, T): the struct of type T laid over the bytes of buf (the view
+		// bin.UnsafeCastStruct hands out: &buf[0] read as *T)
+		argn(2)
+		s := e.eval(n.Args[0])
+		t := e.lookupType(n.Args[1])
+		if s.t == nil || s.t.sort != SSlice || t == nil || !isStructType(t) {
+			specFail("viewStruct(byteSlice, StructType): bad arguments in %s", exprString(n))
+		}
+		w.forceSorts(t)
+		loc := b.Elem(w.sbase(s.t), w.soff(s.t))
+		return Val{t: e.cx.load(e.cur, loc, t), typ: t, loc: loc}
 	case "preserved":
 		// preserved(): no pre-existing location changed (objects allocated meanwhile and
 		// frame-exempt bookkeeping fields excepted)
@@ -1239,6 +1301,7 @@ type ModLoc struct {
 	elems *Term      // slice base: all elements (any index) of this backing array
 	mapp  *Term      // map reference: its contents
 	mtyp  *types.Map
+	allOf types.Type // all(T): the fields of every object of struct type T (wherever it lives), or every cell of leaf type T
 	text  string
 }
 
@@ -1258,6 +1321,16 @@ func (e *SpecEnv) evalLocs(x ast.Expr) []ModLoc {
 					return []ModLoc{{elems: e.w().sbase(v.t), typ: st.Elem(), text: exprString(x)}}
 				}
 				specFail("elems of non-slice %s", exprString(x))
+			case "all":
+				if len(call.Args) != 1 {
+					specFail("all(T)")
+				}
+				t := e.lookupType(call.Args[0])
+				if t == nil {
+					specFail("all(T): unknown type %s", exprString(call.Args[0]))
+				}
+				e.w().forceSorts(t)
+				return []ModLoc{{allOf: t, typ: t, text: exprString(x)}}
 			case "mapOf":
 				v := e.eval(call.Args[0])
 				if mt, ok := v.typ.Underlying().(*types.Map); ok {
